@@ -19,7 +19,35 @@ fn noise(rng: &mut Rng) -> Vec<(String, String)> {
     for i in 0..rng.below(4) {
         v.push((format!("NOISE_{i}"), "x".repeat(rng.range(1, 300) as usize)));
     }
+    // variables a generator might be tempted to read (none of them is part of the configuration)
+    const WELL_KNOWN: &[(&str, &[&str])] = &[
+        ("USER", &["alice", "root"]),
+        ("HOME", &["/home/alice", "/root"]),
+        ("PWD", &["/somewhere/else"]),
+        ("LANG", &["C", "de_DE.UTF-8"]),
+        ("TZ", &["UTC", "Asia/Tokyo"]),
+        ("SOURCE_DATE_EPOCH", &["0", "1700000000"]),
+        ("CARGO_PKG_NAME", &["demo", "other-crate"]),
+        ("CARGO_MANIFEST_DIR", &["/work/demo"]),
+        ("CARGO_PKG_VERSION", &["9.9.9"]),
+        ("RUSTFLAGS", &["-Copt-level=3"]),
+        ("TERM", &["xterm-256color", "dumb"]),
+        ("HOSTNAME", &["builder-17"]),
+        ("LALRPOP_LANE_TABLE", &["enabled"]),
+    ];
+    for (k, vals) in WELL_KNOWN {
+        if rng.chance(1, 4) {
+            v.push((k.to_string(), rng.pick(vals).to_string()));
+        }
+    }
     v
+}
+
+/// (clock start, pid): the simulated date moves over decades, the pid over the whole range
+fn clock_pid(rng: &mut Rng) -> (Option<i64>, Option<i64>) {
+    let clock = if rng.chance(2, 3) { Some(*rng.pick(&[86_400i64, 946_684_800, 1_600_000_000, 1_790_000_000, 2_147_483_000, 4_102_444_800])) } else { None };
+    let pid = if rng.chance(2, 3) { Some(rng.range(2, 4_000_000) as i64) } else { None };
+    (clock, pid)
 }
 
 fn flags(rng: &mut Rng) -> CallSpec {
@@ -30,7 +58,8 @@ fn flags(rng: &mut Rng) -> CallSpec {
 pub fn seed_scenario(t: &PoolText, seed: u64, h: u64, n: u64) -> Scenario {
     let mut rng = Rng::derive(seed, 700_000 + n);
     let f = flags(&mut rng);
-    let name = rng.pick(&["g.lalrpop", "sub/dir/parser.lalrpop", "Other_Name9.lalrpop"]).to_string();
+    let name = rng.pick(&["g.lalrpop", "sub/dir/parser.lalrpop", "Other_Name9.lalrpop", "a/very/deeply/nested/directory/structure/indeed/x.lalrpop", "ünï/grämmar.lalrpop"]).to_string();
+    let cp = clock_pid(&mut rng);
     let node = NodeSpec {
         kind: NodeKind::Api { calls: vec![CallSpec { entry: "process_file".into(), path: Some(name.clone()), ..f }] },
         cwd: String::new(),
@@ -39,6 +68,8 @@ pub fn seed_scenario(t: &PoolText, seed: u64, h: u64, n: u64) -> Scenario {
         faults: vec![],
         leak: if rng.chance(1, 3) { rng.below(500) as u32 } else { 0 },
         canary: true,
+        clock: cp.0,
+        pid: cp.1,
     };
     Scenario {
         property: "C20".into(),
@@ -53,6 +84,7 @@ pub fn batch_scenario(pool: &Pool, t: &PoolText, seed: u64, n: u64) -> Scenario 
     let mut rng = Rng::derive(seed, 800_000 + n);
     let f = flags(&mut rng);
     let others = pool.valid_small();
+    let cp = clock_pid(&mut rng);
     let k = rng.range(1, 4) as usize;
     let pos = rng.below(3);
     let target_name = match pos {
@@ -79,6 +111,8 @@ pub fn batch_scenario(pool: &Pool, t: &PoolText, seed: u64, n: u64) -> Scenario 
         faults: vec![],
         leak: if rng.chance(1, 3) { rng.below(500) as u32 } else { 0 },
         canary: true,
+        clock: cp.0,
+        pid: cp.1,
     };
     ops.push(Op::Build { node, tag: "check".into() });
     Scenario { property: "C20".into(), seed, label: format!("batch:{}:pos{pos}", t.name), ops }
@@ -88,7 +122,13 @@ pub fn batch_scenario(pool: &Pool, t: &PoolText, seed: u64, n: u64) -> Scenario 
 pub fn order_scenario(pool: &Pool, t: &PoolText, seed: u64, n: u64) -> Scenario {
     let mut rng = Rng::derive(seed, 900_000 + n);
     let f = flags(&mut rng);
-    let others = pool.valid_small();
+    let mut others = pool.valid_small();
+    // texts that FAIL may come first in the same process too (a failed file must leave no state behind)
+    let errs = pool.errors();
+    if rng.chance(1, 2) {
+        others.extend(errs.iter().copied());
+    }
+    let cp = clock_pid(&mut rng);
     let k = rng.range(1, 3) as usize;
     let mut ops = vec![Op::Write { path: "t/target.lalrpop".into(), content: Content::from_bytes(&t.bytes) }];
     let mut calls = vec![CallSpec { entry: "process_file".into(), path: Some("t/target.lalrpop".into()), ..f.clone() }];
@@ -101,7 +141,7 @@ pub fn order_scenario(pool: &Pool, t: &PoolText, seed: u64, n: u64) -> Scenario 
     rng.shuffle(&mut calls);
     // the target once more at the end, regenerated after everything else ran in this process
     calls.push(CallSpec { entry: "process_file".into(), path: Some("t/target.lalrpop".into()), force: true, ..f });
-    let use_cli = rng.chance(1, 5);
+    let use_cli = rng.chance(1, 5) && !calls.iter().any(|c| c.path.as_deref().map(|p| p.contains("/e_")).unwrap_or(false));
     let kind = if use_cli {
         let mut args: Vec<String> = vec!["-f".into()];
         if calls[0].comments {
@@ -118,7 +158,7 @@ pub fn order_scenario(pool: &Pool, t: &PoolText, seed: u64, n: u64) -> Scenario 
     } else {
         NodeKind::Api { calls }
     };
-    let node = NodeSpec { kind, cwd: String::new(), env: noise(&mut rng), hashseed: rng.below(64), faults: vec![], leak: 0, canary: !use_cli };
+    let node = NodeSpec { kind, cwd: String::new(), env: noise(&mut rng), hashseed: rng.below(64), faults: vec![], leak: 0, canary: !use_cli, clock: cp.0, pid: cp.1 };
     ops.push(Op::Build { node, tag: "check".into() });
     Scenario { property: "C20".into(), seed, label: format!("order:{}", t.name), ops }
 }
